@@ -47,7 +47,7 @@ SeqStore(n) == IF n = 0 THEN <<>> ELSE Append(SeqStore(n - 1), SP(<<107>> \o (IF
 -----------------------------------------------------------------------------
 (* c01: WHERE predicates of the documented core language *)
 
-StrLefts == { AKey, AVal, Call1("upper", AKey), Call1("lower", AVal), ABin("+", AKey, AStr(<<120>>)) }
+StrLefts == { AKey, AVal, Call1("upper", AKey), Call1("lower", AVal), ABin("+", AKey, AStr(<<120>>)), ACall("substr", <<AVal, AInt(1), AInt(3)>>) }
 StrLits  == { AStr(a), AStr(ab), AStr(BU), AStr(<<>>) }
 ReLits   == { AStr(<<94, 97>>), AStr(<<98, 36>>), AStr(<<94, 97, 46, 42, 99, 36>>), AStr(bb), AStr(<<94, 97, 98, 36>>) }
 StrOps   == { "=", "!=", "^=", ">", ">=", "<", "<=" }
@@ -84,8 +84,14 @@ NumChains == { ABin("=", ABin("-", ABin("-", IV, AInt(1)), AInt(2)), AInt(0)), A
 BigPreds == { ABin(op, IV, Call1("int", AStr(D16a))) : op \in {"=", "!=", ">", "<="} }
             \cup { ABin(">", IV, Call1("int", AStr(<<57,48,48,55,49,57,57,50,53,52,55,52,48,57,57,50>>))), ABin("<", IV, AInt(4)), ABin("=", Call1("str", IV), AVal),
                    ABetween(IV, AInt(3), Call1("int", AStr(D16b))), AIn(IV, <<Call1("int", AStr(D16a)), AInt(7)>>) }
+EdgePreds == { AIn(AStr(ab), <<AKey, AVal>>), AIn(AStr(<<>>), <<AVal, AStr(a)>>), ABetween(AStr(ab), AKey, AStr(<<122>>)), ABetween(AStr(bb), AStr(a), AKey),
+               ABetween(AKey, AStr(ab), AStr(ab)), ABetween(AVal, AKey, AKey),                                 \* equal bounds: refused alike in both modes
+               ABin("=", ABool(TRUE), ABin("^=", AKey, AStr(a))), ABin("!=", ABool(FALSE), ABin("=", AVal, AStr(ab))), ANot(ABin("=", ABool(TRUE), ABin(">", AKey, AStr(a)))),
+               ABin("=", ACall("substr", <<AVal, AInt(1), AInt(2)>>), AStr(bb)), ABin("^=", ACall("substr", <<AKey, AInt(1), AInt(3)>>), AStr(bb)),
+               ABin("=", ACall("join", <<AStr(<<44>>), AVal, AKey>>), ABin("+", AStr(<<44>>), AKey)) }
 C01Cases ==
   { [st |-> Select(<<>>, w, <<>>, <<>>, NoLim), sid |-> sid] : w \in BigPreds, sid \in {"BA", "B"} }
+  \cup { [st |-> Select(<<>>, w, <<>>, <<>>, NoLim), sid |-> sid] : w \in EdgePreds, sid \in {"T", "R"} }
   \cup { [st |-> Select(<<>>, w, <<>>, <<>>, NoLim), sid |-> "R"] :
             w \in { ABin("~=", AKey, AVal), ABin("~=", AVal, AKey), ABin("^=", AKey, AVal), AIn(AKey, <<AVal, AStr(a)>>), ABetween(AKey, AVal, AStr(dd)), ABin("|", ABin("~=", AKey, AVal), ABin("=", AVal, AStr(<<120>>))) } }
   \cup { [st |-> Select(<<>>, w, <<>>, <<>>, NoLim), sid |-> "I"] : w \in NumChains \cup { ABin(op, x, y) : op \in {"&", "or"}, x \in NumChains, y \in {ABin("^=", AKey, AStr(a))} } }
@@ -147,6 +153,11 @@ FuncExprs ==
   \cup { Call1("len", Call2("split", x, AStr(Comma))) : x \in TArgs \cup RowT }
   \cup { Call1("len", x) : x \in {AStr(<<>>), AStr(abc), AKey, AVal} }
   \cup { Call1(f, Call1("len", SplitV)) : f \in {"str", "strlen", "int", "float", "is_int"} }
+  \cup { ACall("join", <<AStr(Comma), AStr(<<>>), AStr(a)>>), ACall("join", <<AStr(Comma), AStr(a), AStr(<<>>), AStr(bb)>>), ACall("join", <<AStr(Comma), AVal, AKey>>), ACall("join", <<AStr(<<>>), AKey, AVal>>),
+         ACall("substr", <<AVal, AInt(1), AInt(3)>>), ACall("substr", <<AKey, AInt(2), AInt(2)>>), ACall("substr", <<AVal, AInt(1), AInt(1)>>) }
+  \cup { Call2(f, x, y) : f \in {"cosine_distance", "l2_distance"},
+                          x \in { ACall("list", <<AInt(1), AInt(0)>>), ACall("list", <<AInt(0), AInt(3), AInt(4)>>) },
+                          y \in { ACall("list", <<AInt(0), AInt(1)>>), ACall("list", <<AInt(1), AInt(0)>>), ACall("list", <<AInt(3), AInt(0), AInt(4)>>), ACall("list", <<AInt(0), AInt(3), AInt(4)>>) } }
   \cup { ACall("join", <<AStr(Comma), AKey, Call1("len", SplitV)>>), ABin("+", Call1("len", SplitV), AInt(1)), ABin("*", Call1("len", SplitV), AFlt(1, 1)) }
   \cup { AIdx(Call2("split", x, AStr(Comma)), AInt(n)) : x \in {AStr(<<97, 44, 98, 44, 99>>), AVal}, n \in {0, 1, 2} }
   \cup { ACall("join", <<AStr(sep), x, y>>) : sep \in {Comma, <<>>, <<45, 45>>}, x \in {AStr(a), AKey, AInt(7)}, y \in {AStr(<<>>), AVal, AInt(12)} }
@@ -240,7 +251,8 @@ RowNum == { Call1("int", AVal), Call1("float", AVal), Call1("strlen", AKey) }
 Reassoc == { ABin(op2, ABin(op1, x, y), z) : op1 \in Ar, op2 \in Ar, x \in RowNum, y \in KSmall, z \in KSmall }
            \cup { ABin(op2, ABin(op1, y, x), z) : op1 \in {"+", "*"}, op2 \in {"+", "*"}, x \in RowNum, y \in KSmall, z \in KSmall }
            \cup { ABin(op, ABin(op, ABin(op, x, y), z), y) : op \in {"+", "*"}, x \in RowNum, y \in KSmall, z \in KSmall }
-KStr == { ABin("+", AStr(a), AStr(bb)), ABin("+", ABin("+", AKey, AStr(a)), AStr(bb)), ABin("+", AStr(a), ABin("+", AStr(bb), AKey)), Call1("upper", ABin("+", AStr(a), AStr(bb))),
+KStr == { ABin("+", ABin("+", AStr(a), AKey), AStr(bb)), ABin("+", AStr(a), ABin("+", AKey, AStr(bb))), ABin("+", ABin("+", AStr(<<60>>), AVal), AStr(<<62>>)),
+          ABin("+", AStr(a), AStr(bb)), ABin("+", ABin("+", AKey, AStr(a)), AStr(bb)), ABin("+", AStr(a), ABin("+", AStr(bb), AKey)), Call1("upper", ABin("+", AStr(a), AStr(bb))),
           Call1("strlen", AStr(abc)), ABin("+", Call1("strlen", AStr(abc)), Call1("int", AVal)), Call1("str", ABin("+", AInt(1), AInt(2))), Call1("int", AStr(<<52, 50>>)),
           Call1("float", AStr(<<49, 46, 53>>)), ABin("*", Call1("float", AStr(<<49, 46, 53>>)), AInt(2)), Call1("lower", Call1("upper", AStr(a))),
           ACall("join", <<AStr(Comma), AStr(a), AInt(1)>>), Call1("len", L123), Call1("is_int", AStr(<<49>>)),
@@ -263,7 +275,10 @@ C04Not == { [st |-> Select(<<>>, ANot(ABin(op, l, k)), <<>>, <<>>, NoLim), sid |
 C04Names == { [st |-> Select(<<F(AKey, "d"), F(AVal, "d"), F(ABin("+", AName("d"), AStr(<<33>>)), "e")>>, All, <<>>, <<>>, NoLim), sid |-> "F"],
               [st |-> Select(<<F(AKey, ""), F(ACall("join", <<AStr(<<45>>), AStr(a), AStr(bb)>>), "j1"), F(ACall("join", <<AStr(<<45, 39, 44, 32, 39, 97>>), AStr(bb)>>), "j2")>>, All, <<>>, <<>>, NoLim), sid |-> "F"],
               [st |-> Select(<<F(AKey, ""), F(ACall("join", <<AStr(<<45, 39, 44, 32, 39, 97>>), AStr(bb)>>), "j2"), F(ACall("join", <<AStr(<<45>>), AStr(a), AStr(bb)>>), "j1")>>, All, <<>>, <<>>, NoLim), sid |-> "F"] }
-C04Cases == C04Fields \cup C04Preds \cup C04Not \cup C04Names
+C04LitLeft == { [st |-> Select(<<>>, w, <<>>, <<>>, NoLim), sid |-> "F"] :
+                  w \in { AIn(AStr(ab), <<AKey, AVal>>), AIn(AStr(<<49, 46, 53>>), <<AVal, AKey>>), ABetween(AStr(ab), AKey, AStr(<<122>>)), ABetween(AStr(bb), AStr(a), AKey),
+                          AIn(AInt(3), <<Call1("strlen", AKey), AInt(7)>>), ABetween(AInt(2), AInt(1), Call1("strlen", AKey)) } }
+C04Cases == C04Fields \cup C04Preds \cup C04Not \cup C04Names \cup C04LitLeft
 
 -----------------------------------------------------------------------------
 (* c08: LIMIT grid.  Offsets and counts around multiples of every batch size the harness uses
@@ -303,6 +318,9 @@ C08Delete ==
             w \in { AIn(AKey, <<AStr(a), AVal>>), AIn(AKey, <<AVal, AStr(c1), AStr(<<122>>)>>), ABin("~=", AKey, AVal), ABin("&", ABin("~=", AKey, ABin("+", AStr(<<94>>), AVal)), ABin("!=", AKey, AStr(<<122>>))),
                     ABin("|", AIn(AKey, <<AStr(c2), AVal>>), ABin("=", AKey, AStr(a))) },
             lim \in {NoLim, Lim(0, 1), Lim(1, 1), Lim(0, 5)} }
+  \cup { [st |-> Stmt("delete", <<>>, w, <<>>, <<>>, lim), sid |-> "V"] :
+            w \in { ABin("in", AKey, Call2("split", AVal, AStr(Comma))), ABin("in", AStr(<<50>>), Call2("split", AVal, AStr(Comma))), ABin("&", ABin("in", AKey, Call2("split", AVal, AStr(Comma))), ABin("!=", AKey, AStr(<<122>>))) },
+            lim \in {NoLim, Lim(0, 1)} }
   \cup { [st |-> Stmt("delete", <<>>, w, <<>>, <<>>, lim), sid |-> "R"] :
             w \in { ABin("~=", AKey, AVal), ABin("~=", AVal, AKey), ABin("^=", AKey, AVal), AIn(AKey, <<AVal, AStr(a)>>), ABin("&", ABin("~=", AKey, AVal), ABin(">", AKey, AStr(a))) },
             lim \in {NoLim, Lim(1, 2)} }
